@@ -27,6 +27,7 @@ func runC17(p *load.Program, r *oblig.Report) {
 	c17DontExpectEOF(p, r)
 	c17BatchEOF(p, r)
 	c17DiscardReportsShortStream(p, r)
+	shareRules(r, "C17", "C17.R12 a cut response is a transient error: the Writer retries on a new connection (C01.R7)", func(sub *oblig.Report) { c01Temporary(p, sub) })
 	c17MergeFailures(p, r, "C17.R10 a merged response is complete: a failed part fails the whole")
 	c17Sticky(p, r)
 	c17Shared(p, r)
